@@ -1,1 +1,4 @@
+import NavisModel.Props.C01
 import NavisModel.Props.C09
+import NavisModel.Props.C10
+import NavisModel.Props.C20
